@@ -297,6 +297,8 @@ def install_wrappers() -> None:
             if rec is None:
                 rec = LEDGER.regions[pointer_off] = {"alloc_by": "raw", "alloc_len": 0, "written": 0, "resolved_by": None, "released": False, "call": LEDGER.call, "rows": -1}
             rec["resolved_by"] = LEDGER.side()
+            if rec["resolved_by"] == "server" and LEDGER.call.startswith("unary:"):
+                LEDGER.bump("server_resolved_unary_request")  # only the raw driver sends requests through shm
             LEDGER.seq += 1
             rec["seq"] = LEDGER.seq
 
@@ -691,8 +693,6 @@ def drive_history(chk: Check | None, proxy: Any, seg: Any, ct: Any, calls: list[
                 chk.hit("call_completed_while_batches_held")
             if "shm" in LEDGER.routes:
                 chk.hit(f"shm_route:{shape}")
-            if call.get("m") == "raw_echo_bytes" and any(r["call"] == LEDGER.call and r["alloc_by"] == "client" and r["resolved_by"] == "server" for r in LEDGER.regions.values()):
-                chk.hit("request_batch_resolved_from_shm_by_server")
             account(chk, seg, held_offsets, {**desc, "call": {k: v for k, v in call.items() if k != "args"}}, cfg, sync)
             reused = {r["old"][0] for r in LEDGER.reuse}
             report_reuse(chk, desc, cfg)
@@ -993,7 +993,7 @@ def main(tier: str, seed: int) -> int:
         "ledger_resolved",
         "ledger_released",
         "fixed_history",
-        "request_batch_resolved_from_shm_by_server",
+        "ledger_server_resolved_unary_request",
         "shm_route:producer_dict",
         "shm_route:producer_dict2",
         "shm_route:producer_nested",
